@@ -12,7 +12,10 @@ correspondence: E-CONC L1 — harness/c03.cpp runs the real ConcurrentFixedSwiss
                 chained tables); every atomic-level trace (16 relaxed byte loads per group, fences, slot
                 CAS, release stores, sched_yield, next-pointer loads / CAS) is replayed in lock-step by
                 lean/Drivers/C03.lean; the value cells are vrt_payload ranges (HB race monitor = "fully
-                constructed before visible"); the harness evaluates the property's oracle itself.
+                constructed before visible"); the harness evaluates the property's oracle itself.  An
+                additional oracle-only pass runs the same programs under VRT_MEM=view (release/acquire
+                view model: loads of control bytes / next pointers may be stale), where the
+                find-after-insert oracle binds only calls that happen-after the returned insertion.
 """
 from vlib.core import *
 
@@ -97,9 +100,12 @@ def run(ctx):
     m = max(1, n * 5 // 14)
     plan += [("fixed", seed0, n, {}), ("set", seed0, n, {}),
              ("fixed", seed0 + n, m, {"VRT_STRATEGY": "pct"}), ("set", seed0 + n, m, {"VRT_STRATEGY": "pct"}),
-             ("fixed", seed0 + 2 * n, m, {"VRT_STICK": "0"}), ("set", seed0 + 2 * n, m, {"VRT_STICK": "0"})]
+             ("fixed", seed0 + 2 * n, m, {"VRT_STICK": "0"}), ("set", seed0 + 2 * n, m, {"VRT_STICK": "0"}),
+             # weak-memory pass (oracle + HB race monitor only: stale loads are not SC-replayable)
+             ("fixed", seed0 + 3 * n, m, {"VRT_MEM": "view"}), ("set", seed0 + 3 * n, m, {"VRT_MEM": "view"})]
     for mode, s0, cnt, env in plan:
-        runs = ctx.econc(exe, drv, [mode], s0, cnt, env=dict(env, VRT_STEP_LIMIT="250000"))
+        lockstep = env.get("VRT_MEM") != "view"
+        runs = ctx.econc(exe, drv if lockstep else None, [mode], s0, cnt, env=dict(env, VRT_STEP_LIMIT="250000"))
         tag = mode + ("/" + ",".join("%s=%s" % kv for kv in sorted(env.items())) if env else "")
         dist["modes"][tag] = dist["modes"].get(tag, 0) + len(runs)
         for r in runs:
@@ -134,6 +140,12 @@ def run(ctx):
                 dist["pct_mirror_spin"] = dist.get("pct_mirror_spin", 0) + 1
             elif r["verdict"] != "ok":
                 ctx.failing_input("verdict:%s:%s" % (mode, r["verdict"].split()[0]), text + "\n" + r.get("stderr", ""))
+            elif not lockstep:
+                dist["view_ok"] = dist.get("view_ok", 0) + 1
+                for l in r["lines"][-3:]:
+                    mm = re.search(r"ev stats .* stale (\d+)", l)
+                    if mm:
+                        dist["view_stale_reads"] = dist.get("view_stale_reads", 0) + int(mm.group(1))
             elif r["replay"] and r["replay"].startswith("ok"):
                 dist["replay_ok"] += 1
             else:
@@ -163,7 +175,7 @@ def replay(ctx, path):
     env = dict(x.split("=", 1) for x in m.group(3).split())
     exe, log = build_vrt_exe("c03", SRCS, repo_cpp=REPO_CPP)
     drv = ctx.driver("drv_C03")
-    runs = ctx.econc(exe, drv, [mode], seed, 1, env=env)
+    runs = ctx.econc(exe, None if env.get("VRT_MEM") == "view" else drv, [mode], seed, 1, env=dict(env, VRT_STEP_LIMIT="250000"))
     r = runs[0]
     print("\n".join(l for l in r["lines"] if " ld ctl" not in l))
     print("verdict:", r["verdict"], "replay:", r["replay"], "oracle:", r["oracle"], "races:", r["races"])
